@@ -183,7 +183,7 @@ Definition hist_order : list xevent :=
 Theorem C07_rescan_then_reorg_refused_refuted :
   let s := xrun {| f_removable := true; f_rollback := true; f_import_retry := true; f_start_reorg := true;
                    f_rollback_order := false;
-                   f_import_tipcheck := true; f_removable_debit := true; f_ff_check := true |} p0 1000 20000 [g0] hist_order in
+                   f_import_tipcheck := true; f_removable_debit := true; f_ff_check := true; f_keystore_undo := true |} p0 1000 20000 [g0] hist_order in
   status_of (xs_st s) 2 = Some WReady /\
   x_brecs (xs_st s) = [{| br_h := 2; br_bid := 2; br_txs := [4; 3]%N |}] /\
   fst (tip (x_w (xs_st s))) = 2 /\ chain_height (xs_node s) = 3 /\
